@@ -2,3 +2,5 @@ pub mod engine;
 pub mod syncworld;
 pub mod world;
 pub mod props;
+pub mod rights;
+pub mod rightsworld;
